@@ -20,10 +20,10 @@ SWEEP = {
         "DiskRevolve": (14, {"rmax": 3}), "PeriodicDiskRevolve": (14, {"rmax": 2, "unwind": 3}),
     },
     "thorough": {
-        "Multistage": (36, {}), "Mixed": (50, {}), "TwoLevel": (28, {"bmax": 4, "passes": 3}),
+        "Multistage": (40, {}), "Mixed": (50, {}), "TwoLevel": (30, {"bmax": 4, "passes": 3}),
         "SingleDiskCopy": (60, {"passes": 3}), "SingleDiskMove": (60, {}),
-        "HRevolve": (22, {"rmax": 2, "dmax": 2}), "Revolve": (48, {"rmax": 5}),
-        "DiskRevolve": (46, {"rmax": 3}), "PeriodicDiskRevolve": (50, {"rmax": 3, "unwind": 5}),
+        "HRevolve": (24, {"rmax": 2, "dmax": 2}), "Revolve": (48, {"rmax": 5}),
+        "DiskRevolve": (50, {"rmax": 3}), "PeriodicDiskRevolve": (60, {"rmax": 3, "unwind": 5}),
     },
 }
 HREV_EXTRA = {"quick": [("/r1d3", range(7, 11), {"rmax": 1, "dmin": 3, "dmax": 3})], "thorough": [("/r3d3", range(2, 17), {"rmax": 3, "dmax": 3}),
